@@ -72,10 +72,19 @@ fn expected(stream: &[u8], buf_len: usize) -> (Vec<Outcome>, usize) {
     (out, stream.len())
 }
 
+/// The buffer handed to the reassembler: `len` dirty bytes, in an allocation that may be larger than that (a reused pool
+/// buffer); the limit that counts is the length.
+pub fn mk_buf(len: usize, salt: usize) -> Vec<u8> {
+    let spare = [0usize, 1, 0, 19, 0, 64, 0, 4096][(len + salt) % 8];
+    let mut v = Vec::with_capacity(len + spare);
+    v.resize(len, 0xCD);
+    v
+}
+
 /// Feed the chunks; returns the outcomes and checks the per-chunk contracts.
 fn drive(stream: &[u8], chunks: &[usize], buf_len: usize) -> Result<(Vec<Outcome>, usize), String> {
     let mut outcomes = Vec::new();
-    let mut dec = Some(StunPacketDecoder::new(vec![0xCD; buf_len]).map_err(|_| "decoder refused a buffer of >= 20 bytes".to_string())?);
+    let mut dec = Some(StunPacketDecoder::new(mk_buf(buf_len, stream.len())).map_err(|_| "decoder refused a buffer of >= 20 bytes".to_string())?);
     let mut pos = 0usize; // bytes consumed from the stream
     let mut pkt_start = 0usize; // stream offset where the current packet starts
     let mut fed = 0usize;
@@ -98,7 +107,7 @@ fn drive(stream: &[u8], chunks: &[usize], buf_len: usize) -> Result<(Vec<Outcome
                     off += consumed;
                     outcomes.push(Outcome::Packet(packet.to_vec()));
                     pkt_start = pos;
-                    dec = Some(StunPacketDecoder::new(vec![0xCD; buf_len]).map_err(|_| "decoder refused buffer".to_string())?);
+                    dec = Some(StunPacketDecoder::new(mk_buf(buf_len, pos)).map_err(|_| "decoder refused buffer".to_string())?);
                     if off == chunk.len() {
                         break;
                     }
